@@ -49,6 +49,18 @@ RleKinds(rle, k) ==
   \cup UNION {{Canon(Junction(rle[j-1][1], rle[j][1], i, k)) : i \in 1..(k-1)} :
                 j \in {j \in 2..Len(rle) : rle[j-1][1] # 4 /\ rle[j][1] # 4}}
 
+\* the windows as a sequence of <<canonical k-mer, number of windows>>: one pair per clean run, one per junction window
+RlePairs(rle, k) ==
+  LET f[j \in 0..Len(rle)] ==
+        IF j = 0 THEN <<>>
+        ELSE f[j-1]
+             \o (IF j > 1 /\ rle[j-1][1] # 4 /\ rle[j][1] # 4
+                 THEN [i \in 1..(k-1) |-> <<Canon(Junction(rle[j-1][1], rle[j][1], i, k)), 1>>] ELSE <<>>)
+             \o (IF rle[j][1] # 4 THEN << <<Canon(Homo(rle[j][1], k)), rle[j][2] - k + 1>> >> ELSE <<>>)
+  IN f[Len(rle)]
+PairWeight(pairs, P(_)) ==
+  LET t[i \in 0..Len(pairs)] == IF i = 0 THEN 0 ELSE t[i-1] + (IF P(pairs[i][1]) THEN pairs[i][2] ELSE 0) IN t[Len(pairs)]
+
 \* the record itself
 Expand(rle) ==
   LET e[j \in 0..Len(rle)] == IF j = 0 THEN <<>> ELSE e[j-1] \o Homo(rle[j][1], rle[j][2]) IN e[Len(rle)]
@@ -59,4 +71,6 @@ RleAgreesOn(rle, k) ==
   IN /\ RleTotal(rle, k) = Len(cw)
      /\ RleKinds(rle, k) = kinds
      /\ \A d \in kinds : RleOcc(rle, k, d) = Occ(cw, d)
+     /\ \A d \in kinds : PairWeight(RlePairs(rle, k), LAMBDA x : x = d) = Occ(cw, d)
+     /\ \A i \in 1..Len(RlePairs(rle, k)) : RlePairs(rle, k)[i][1] \in kinds /\ RlePairs(rle, k)[i][2] >= 1
 =============================================================================
